@@ -192,7 +192,7 @@ def e2e_cases(rng, ncases, per):
                 parts = [[], [0], [0, 0], [0, 1], [1, 0, 1], [0, 32768, 0]][j]
             extra = rng.choice([0, 0, 0, 1, 100, 2049])
             n = sum(parts) + extra
-            via = "c" + ",".join(map(str, parts))
+            via = rng.choice(["c", "c", "d"]) + ",".join(map(str, parts))
             lines.append("set 0 1 %d %d %s" % (v, n, via))
             expect.append("ok")
             descr.append(lines[-1])
@@ -204,7 +204,7 @@ def e2e_cases(rng, ncases, per):
                 # key written before keeps its value
                 v += 1
                 bad_parts = [rng.choice(E2E_SIZES) for _ in range(rng.choice([0, 1, 2, 3]))]
-                lines.append("set 0 0 %d %d c%s" % (v, sum(bad_parts), ",".join(map(str, bad_parts))))
+                lines.append("set 0 0 %d %d %s%s" % (v, sum(bad_parts), rng.choice(["c", "d"]), ",".join(map(str, bad_parts))))
                 expect.append("err EmptyKey")
                 descr.append(lines[-1])
                 lines.append("get 0 1 g")
